@@ -46,6 +46,8 @@ func intArg(v Value) int64 {
 
 func zArg(v Value) *Term { return v.(ZVal).t }
 
+var settleObj = new(int) // wait object of goroutines blocked in verifrt.Settle
+
 func init() {
 	reg := func(name string, f intrinsic) { intrinsics[name] = f }
 	nondetInt := func(kind string, w int, s bool) intrinsic {
@@ -171,6 +173,17 @@ func init() {
 			}
 			if !progressed {
 				break
+			}
+		}
+		return nil, actSync
+	})
+	// Settle: like Quiesce, but the order in which the other goroutines run is left to the scheduler
+	// (the caller blocks until nobody else is runnable; see schedule()).
+	reg(vrt+"Settle", func(r *Run, g *G, a []Value) (Value, action) {
+		for _, og := range r.gs {
+			if og != g && og.state == GRunnable {
+				r.block(g, "settle", settleObj)
+				return nil, actBlocked
 			}
 		}
 		return nil, actSync
